@@ -21,8 +21,23 @@ def main() -> int:
         return int(module.main(sys.argv[2:]))
     except SystemExit:
         raise
-    except BaseException:  # harness failure, never a verdict
+    except BaseException as err:  # noqa
         traceback.print_exc()
+        text = traceback.format_exc()
+        marker = str(env.REPO / "aas_core_codegen") + "/"
+        if marker in text:
+            # the exception left repository code that the check calls directly: an
+            # observation about the repository (never seen on the unchanged tree)
+            from vf import harness
+
+            chk = harness.Check(pid, "exploration", "uncaught exception from repository code", sys.argv[2:])
+            chk.evaluations = 1
+            chk.violation(
+                "uncaught-exception-from-repository|"
+                + harness.normalize_message(f"{type(err).__name__}: {err}", 70),
+                {"trace_back": text[-4000:]},
+            )
+            return chk.finish()
         print(f"HARNESS-ERROR: property={pid} the check itself crashed")
         return 3
 
